@@ -195,7 +195,10 @@ pub fn c05_worker(ctx: &mut Ctx) {
     // fully analysed corelib).
     let groups: Vec<Vec<Config>> = cfgs[1..].chunks(3).map(|g| std::iter::once(cfgs[0]).chain(g.iter().copied()).collect()).collect();
     let work: Vec<(&Vec<Config>, &(String, String))> = groups.iter().flat_map(|g| cases.iter().map(move |c| (g, c))).collect();
-    let results: Vec<ShardResult> = work
+    // Thorough: half the threads - every thread keeps up to four fully analysed corelibs alive, and
+    // the first thorough runs were killed by the kernel for using all of the machine's memory.
+    let pool = rayon::ThreadPoolBuilder::new().num_threads(ctx.tier.pick(16, 7)).stack_size(256 * 1024 * 1024).build().expect("thread pool");
+    let results: Vec<ShardResult> = pool.install(|| work
         .par_iter()
         .map(|(cfgs, (name, code))| {
             let mut acc = ShardResult::default();
@@ -210,7 +213,7 @@ pub fn c05_worker(ctx: &mut Ctx) {
             }
             acc
         })
-        .collect();
+        .collect());
     for r in results {
         ctx.absorb(r);
     }
